@@ -30,6 +30,14 @@ claimed["C09"] = dict(engine="cesium-conc", cat="exploration", ref="DESIGN.md §
    text="Task sets (writers on their own index groups, readers, a time-range deleter on preloaded data, GC passes, channel create/write/delete) run as goroutines of one real database inside a synctest bubble; every instrumented lock, atomic, channel operation, simulated FS call and task step is a decision of the seeded scheduler (random / sticky / PCT, yield-class subsets, map-order permutation, stall quanta). Oracles: no deadlock/stall (quiescent, unfinished, no timer helps within the horizon), no panic, per-channel porcupine check that the final content (in memory and after close+reopen) equals some serial order of the successful operations, persisted pointer invariant. A second unit re-runs the task sets free-running under the race detector at GOMAXPROCS 1/4/16.",
    note="Deterministic tier pinned to GOMAXPROCS=1 (self-test: 30 processes x 398 cases, 0 divergences at GOMAXPROCS=1; goroutine ids are not creation-ordered with more Ps). The -race tier does not replay exactly. Concurrent reads are executed and their linearizability is reported as an informational probe only, because the statement constrains the content readable afterwards.",
    tech=TECH+": seeded goroutine-level scheduler over overlay-instrumented sync/atomic/channel/FS points, porcupine on recorded histories, deadlock detection by quiescence, race detector tier")
+claimed["C05"] = dict(engine="cesium-control", cat="exploration", ref="DESIGN.md §5 C05",
+   text="(a) seeded histories of open(subject, authority, time range, ErrIfControlled/ErrOnUnauthorizedOpen) / set-authority / release on exclusive and shared controllers with the gate set's iteration order permuted per case: after every step the returned transfer, every open gate's Authorize outcome and LeadingState equal the ordered-gate model; (c) the same calls from 2-3 goroutines under the seeded scheduler, recorded history checked with porcupine against the same sequential model; (b) the write path (only authorized writes persisted and relayed) is checked through real cesium writers by C20's engine.",
+   note="In-package harness on cesium/internal/control. SetAuthority on a released gate, a gate bridging two regions and the error kind of a duplicate subject are outside the statement. Known finding shared with C20: per-channel handoff lets a write reported unauthorized take effect on part of its channels.",
+   tech=TECH+": seeded op-tier histories with map-order exploration against an ordered-gate model; goroutine-tier schedules with porcupine linearizability")
+claimed["C20"] = dict(engine="cesium-stream", cat="exploration", ref="DESIGN.md §5 C20",
+   text="Writers (contending pairs with drawn authorities; persist+stream / stream-only / persist-only), streamer consumers (always-ready or sleeping in virtual time) and streamer controllers (re-subscribe, disconnect), optionally a database close, run as goroutines of one real database under the seeded scheduler with the relay's slow-consumer timer on the virtual clock. Oracles over the recorded history: per streamer and writer the received frames are a subsequence of the write log (no duplicate, no reorder, no mixing), every received key was subscribed no later than the receipt, nothing from unauthorized or persist-only writes is relayed, stable always-ready streamers receive every frame, the persisted content equals the writes reported authorized, no deadlock/stall and bounded virtual idle time.",
+   note="Streamers are connected before the writers start and the relay is given virtual time to flush before they are disconnected. Completeness is asserted only without stall quanta and without a concurrent database close. After a database close streamers are abandoned, not waited for (disconnecting after the relay has shut down blocks for ever: observation recorded in DESIGN.md).",
+   tech=TECH+": goroutine-tier schedules over instrumented channel/lock/atomic points with virtual-time slow-consumer timers; history oracles (subsequence, filter, completeness, bounded liveness)")
 not_applicable = {
  "C19": "Pure function of (source, arguments): the Arc compiler/analyzer/wazero call path has no goroutines, timers, I/O, transport or storage for a scheduler, clock or fault injector to act on; generating programs would be input generation in simulator costume (DESIGN.md §1).",
 }
@@ -68,6 +76,8 @@ m = {
   {"name": "cesium-seq", "path": "/verif/harness/cesium", "serves_properties": ["C01", "C04", "C10"], "kind_free_text": "op-tier deterministic simulation of real cesium on simfs + virtual clock"},
   {"name": "cesium-domain", "path": "/verif/harness/cesium/internal/domain", "serves_properties": ["C03"], "kind_free_text": "in-package op-tier simulation of cesium/internal/domain on simfs"},
   {"name": "cesium-conc", "path": "/verif/harness/cesium/zz_verif_c09_test.go", "serves_properties": ["C09"], "kind_free_text": "goroutine-tier deterministic simulation (seeded scheduler) + race-detector unit"},
+  {"name": "cesium-control", "path": "/verif/harness/cesium/internal/control", "serves_properties": ["C05"], "kind_free_text": "in-package op-tier + goroutine-tier simulation of the control package"},
+  {"name": "cesium-stream", "path": "/verif/harness/cesium/zz_verif_c20_test.go", "serves_properties": ["C20", "C05"], "kind_free_text": "goroutine-tier simulation of writers, relay and streamers"},
   {"name": "cesium-crash", "path": "/verif/harness/cesium/zz_verif_c02_test.go", "serves_properties": ["C02"], "kind_free_text": "crash-point enumeration over the simulated disk's mutation log"},
  ],
  "checks": checks,
